@@ -322,3 +322,116 @@ def generate(prop, label):
     from contracts.registry import run_contract
     d, axis, tax = [c for c in cases() if "d%d_axis%d_target%d" % c == label][0]
     return run_contract(prop, ("post", f"{CLS}.apply"), contract(d, axis), [(label, setup(d, axis, tax))], name="deltas_apply", fname="Deltas.apply")
+
+
+# ------------------------------------------------------------------------------------------
+# __init__: the regression filters (the class invariant Deltas.apply assumes: odd lengths 2*k*W + 1 >= 3 for k >= 1) and the
+# Kaldi recursion filt_0 = [1], filt_{k+1} = filt_k * kernel, kernel[j] = (j - W) / sum_i (i - W)^2, j = 0..2W
+# ------------------------------------------------------------------------------------------
+
+SUMSQ = z3.Function("sum_of_squares", z3.ArraySort(I, R), I, I, R)  # (content, offset, n) -> sum of squares (assumed np.sum contract)
+
+
+def setup_init(nd):
+    def _setup(ex, st):
+        W = api.sym("context_window")
+        st.assume(W >= 1)
+        api.mk_obj(st, "self", CLS, {})
+        st.env.update({"num_deltas": nd, "target_axis": -1, "concatenate": api.sym("concatenate", "bool"), "context_window": W,
+                       "pad_mode": Opaque("pad_mode", "mode"), "kwargs": {}})
+        st.ghost.update(convs=0)
+        ex.ctx = dict(W=W, nd=nd)
+    return _setup
+
+
+def _h_ones(ex, st, args, kwargs, node, ev):
+    n = args[0]
+    return st.new_root(n, z3.K(I, z3.RealVal(1)), "float64", "fresh", "ones")
+
+
+def _h_arange(ex, st, args, kwargs, node, ev):
+    (n,) = args
+    ev.wd(Z(n) >= 0, "arange_nonneg", node)
+    k = z3.Int("ak!%d" % next(symex._fresh))
+    return st.new_root(n, z3.Lambda([k], z3.ToReal(k)), "float64", "fresh", "arange")
+
+
+def _h_arr_binop_init(ex, st, op, a, b, node, ev):
+    if isinstance(a, Arr) and symex.is_num(b):
+        bb = to_real(b)
+        if isinstance(op, ast.Sub):
+            return api.elementwise(st, lambda x: x - bb, a, name="sub")
+        if isinstance(op, ast.Div):
+            ex.oblige(st, bb != 0, f"div0.L{node.lineno - ex.fx.lineno}", "wd", node.lineno)
+            return api.elementwise(st, lambda x: x / bb, a, name="div")
+        if isinstance(op, ast.Pow) and symex.concrete(b) and b == 2:
+            r = api.elementwise(st, lambda x: x * x, a, name="sq")
+            st.ghost.setdefault("squares_of", {})[r.root] = a
+            return r
+    raise Outside("array arithmetic form in Deltas.__init__")
+
+
+def _h_sum(ex, st, args, kwargs, node, ev):
+    (a,) = args
+    src = st.ghost.get("squares_of", {}).get(getattr(a, "root", None))
+    if src is None:
+        raise Outside("np.sum form")
+    # sum of squares of the integers -W..W: positive because W >= 1 (the only fact the contract needs; closed form W(W+1)(2W+1)/3)
+    v = SUMSQ(st.heap[src.root].content, Z(src.off), Z(src.n))
+    st.assume(v >= 2)  # (-1)^2 + 1^2 <= sum for W >= 1 (A-NP-RED: np.sum is the sum)
+    st.ghost["norm"] = v
+    ex.assumption_ids.add("A-NP-RED")
+    return v
+
+
+def _h_convolve(ex, st, args, kwargs, node, ev):
+    a, b = args
+    if not isinstance(a, Arr) or not isinstance(b, Arr):
+        raise Outside("np.convolve form")
+    lbl = f"L{node.lineno - ex.fx.lineno}"
+    ex.oblige(st, z3.And(Z(a.n) >= 1, Z(b.n) >= 1), f"convolve_of_nonempty.{lbl}", "wd", node.lineno)
+    k = st.ghost["convs"]
+    ex.oblige(st, a.root == st.ghost.get("last_filter", a.root) and b.root == st.ghost.get("kernel_root", b.root), f"previous_filter_times_kernel.{lbl}", "spec", node.lineno)
+    st.ghost.setdefault("kernel_root", b.root)
+    out = st.new_root(simp(Z(a.n) + Z(b.n) - 1), None, "float64", "self._filts", "conv")
+    st.ghost["last_filter"] = out.root
+    st.ghost["convs"] = k + 1
+    ex.assumption_ids.add("A-NP-CORR")
+    return out
+
+
+def contract_init(nd):
+    def flen(ev, k):
+        f = ev.st.fields[("self", "_filts")]
+        return f[k].n
+
+    ens = [("count", "len(self._filts) == num_deltas + 1"), ("order_0_is_identity", "FLEN(0) == 1 and self._filts[0][0] == 1"),
+           ("one_convolution_per_order", "CONVS() == num_deltas")]
+    for k in range(1, nd + 1):
+        ens.append((f"order_{k}_length_odd", f"FLEN({k}) == 2 * {k} * context_window + 1 and FLEN({k}) >= 3"))
+    c = Contract(
+        target=f"post:{CLS}.__init__",
+        uses=["A-REAL", "A-PYSEM", "A-NP-CORR", "A-NP-RED"],
+        consts={"np.float64": Opaque("float64", "dtype"), "FLEN": SpecFn(flen), "CONVS": SpecFn(lambda ev: ev.st.ghost["convs"]),
+                "KERNEL": SpecFn(lambda ev, j: ev.st.select(ev.st.env["delta_filter"], j)),
+                "NORM": SpecFn(lambda ev: ev.st.ghost.get("norm"))},
+        handlers={"np.ones": _h_ones, "np.arange": _h_arange, "arr_binop": _h_arr_binop_init, "np.sum": _h_sum, "np.convolve": _h_convolve},
+        ensures=ens + [("kernel_is_centred_ramp", "len(delta_filter) == 2 * context_window + 1 and forall(j, 0, 2 * context_window + 1, "
+                                                  "KERNEL(j) * KERNEL_NORM() == j - context_window)")],
+    )
+    c.consts["KERNEL_NORM"] = SpecFn(lambda ev: _kernel_norm(ev))
+    c.lazy_products = False
+    return c
+
+
+def _kernel_norm(ev):
+    # the divisor the code used: the sum of squares of the ramp as it was when np.sum was called
+    v = ev.st.ghost.get("norm")
+    if v is None:
+        raise Outside("no normaliser")
+    return v
+
+
+def generate_init(prop, nd):
+    from contracts.registry import run_contract
+    return run_contract(prop, ("post", f"{CLS}.__init__"), contract_init(nd), [("num_deltas_%d" % nd, setup_init(nd))], name="deltas_init", fname="Deltas.__init__")
